@@ -338,6 +338,13 @@ func encodeFunc(ty reflect.Type) func(*Encoder, int, reflect.Value) {
 		return buildTimeEncodeFunc()
 	case reflect.TypeFor[big.Int]():
 		return buildBigIntEncodeFunc()
+	case reflect.TypeFor[Enum]():
+		// The generic enumeration value is an Enumeration wherever it is met (it was one inside a Value only,
+		// and a Long Integer like any other uint32 elsewhere, e.g. as a custom attribute's value).
+		return func(e *Encoder, tag int, v reflect.Value) {
+			//nolint:gosec // Enum is a uint32
+			e.Enum(0, tag, uint32(v.Uint()))
+		}
 	}
 	switch ty.Kind() {
 	case reflect.Pointer:
